@@ -275,6 +275,62 @@ def h_disjoint_general_path():
     prove("empty_graph_not_an_error", all(len(v) == 0 for v in deps.values()))
 
 
+def setup_footprint():
+    setup()
+    from .c16 import setup_fakegeom
+
+    setup_fakegeom()
+
+
+def h_footprint_buffer():
+    """GeoBox.footprint(crs, buffer=<pixels>): the distance handed to the geometry's buffer() is
+    that many source pixels outwards -- positive whatever the signs of the resolution (the
+    cross-CRS dependency graph pads both footprints by 2 pixels this way)"""
+    from affine import Affine
+
+    import odc.geo.geobox as gbx
+
+    from .c16 import FakeGeometry
+
+    rx, ry = Real("rx"), Real("ry")
+    assume(And(rx != 0, ry != 0))
+    g = gbx.GeoBox((Int("ny", 1), Int("nx", 1)), Affine(rx, 0.0, Real("c"), 0.0, ry, Real("f")), "epsg:3857")
+    npix = Real("buffer_pixels")
+    assume(npix > 0)
+    calls = []
+    conc = symx.concrete_mode()
+    if conc:
+        import shapely.geometry.base as sb
+
+        orig = sb.BaseGeometry.buffer
+
+        def rec(self, distance, *a, **kw):
+            calls.append(distance)
+            return orig(self, distance, *a, **kw)
+
+        sb.BaseGeometry.buffer = rec
+        try:
+            g.footprint("epsg:4326", npix)
+        finally:
+            sb.BaseGeometry.buffer = orig
+    else:
+        FakeGeometry.buffer = lambda self, d, *a, **kw: (calls.append(d), self)[1]
+        FakeGeometry.to_crs = lambda self, crs, *a, **kw: self
+        FakeGeometry.dropna = lambda self: self
+        try:
+            g.footprint("epsg:4326", npix)
+        finally:
+            del FakeGeometry.buffer, FakeGeometry.dropna
+            FakeGeometry.to_crs = lambda self, crs: (_ for _ in ()).throw(symx.Unsupported("FakeGeometry.to_crs"))
+    prove("buffered_once", len(calls) == 1)
+    d = ex(calls[0])
+    lo = symx.m_min(abs(ex(rx)), abs(ex(ry))) * ex(npix)
+    hi = symx.m_max(abs(ex(rx)), abs(ex(ry))) * ex(npix)
+    tol = F(1, 10**9) * abs(hi) if conc else 0
+    prove("buffer_is_outwards_by_that_many_pixels", And(d >= lo - tol, d <= hi + tol, d > 0))
+
+
+
 TS_Q = [(1, 1), (3, 7), (16, 256)]
 TS_T = TS_Q + [(256, 16), (2, 2), (512, 512), (7, 1)]
 GI_Q = [dict(k="1", mx=1, n_dst=4, n_src=4, axis="x"), dict(k="2", mx=1, n_dst=2, n_src=4, axis="y"), dict(k="1", mx=-1, n_dst=4, n_src=3, axis="x"), dict(k="1/2", mx=1, n_dst=4, n_src=2, axis="y")]
@@ -296,6 +352,9 @@ OBLIGATIONS = [
     Ob("Q4_disjoint_general_path", h_disjoint_general_path, fixed(), descr="different CRSs, footprints that do not meet: the dependency graph is empty rather than an error",
        functions=("odc.geo.geobox.GeoboxTiles.grid_intersect", "odc.geo.geobox.GeoboxTiles.tiles", "odc.geo.geobox.GeoboxTiles.range_from_bbox"),
        bounds="symbolic axis-aligned GeoBoxes in two CRSs", stubs=("GeoBox.footprint returns the empty geometry shapely gives for footprints that do not meet (NaN bounding box); the replay uses real disjoint rasters in EPSG:3857 / EPSG:4326",), setup=setup),
+    Ob("Q5_footprint_buffer", h_footprint_buffer, fixed(), descr="footprint(crs, buffer=<pixels>) buffers outwards by that many source pixels whatever the signs of the resolution",
+       functions=("odc.geo.geobox.GeoBoxBase.footprint", "odc.geo.geobox.GeoBoxBase._reproject_resolution"), bounds="axis-aligned symbolic affine (either sign per axis), symbolic buffer > 0",
+       stubs=("vertex-list geometry recording buffer(); to_crs/dropna pass-through (the replay records shapely's buffer call)",), setup=setup_footprint),
     Ob("Q2_disjoint_no_error", h_disjoint_no_error, fixed(dict(axis="x"), dict(axis="y")), descr="same-CRS rasters that do not overlap (apart or touching): no error and no dependencies",
        functions=("odc.geo.geobox.GeoboxTiles.grid_intersect",), bounds="gap >= 0 symbolic, either side", setup=setup),
 ]
